@@ -2,7 +2,7 @@ use crate::cache::cache::{
     impl_details::CacheImplDetails, Cache, CacheMetaData, CachePredicate, CacheReadOnlyView,
     KeyType, Record, RemoveIfResult, SetStatus,
 };
-use crate::cache::error::Result;
+use crate::cache::error::{CacheError, Result};
 use rand::rngs::SmallRng;
 use rand::{Rng, SeedableRng};
 use std::sync::atomic;
@@ -23,19 +23,15 @@ impl RandomPolicy {
         }
     }
 
-    fn incr_mem_usage(&self, value: u64) -> u64 {
-        let mut usage = self
-            .memory_usage
-            .fetch_add(value, atomic::Ordering::Release);
-
+    // Evicts random records until the accounted usage fits under the limit
+    // or the store is empty.
+    fn evict_while_over_limit(&self) {
         let mut small_rng = SmallRng::from_entropy();
-        while usage > self.memory_limit {
-            debug!("Current memory usage: {}", usage);
+        while self.memory_usage.load(atomic::Ordering::Acquire) > self.memory_limit {
             debug!("Memory limit: {}", self.memory_limit);
 
             let max = self.store.len();
             if max == 0 {
-                self.decr_mem_usage(usage);
                 break;
             }
             let item = small_rng.gen_range(0..max);
@@ -55,12 +51,11 @@ impl RandomPolicy {
                 Some(val) => {
                     let len = val.1.len();
                     debug!("Evicted: {} bytes from storage", len);
-                    usage = self.decr_mem_usage(len as u64);
+                    self.decr_mem_usage(len as u64);
                 }
                 None => {}
             });
         }
-        usage
     }
 
     fn decr_mem_usage(&self, value: u64) -> u64 {
@@ -77,19 +72,37 @@ impl CacheImplDetails for RandomPolicy {
 
     //
     fn check_if_expired(&self, key: &KeyType, record: &Record) -> bool {
-        self.store.check_if_expired(key, record)
+        let expired = self.store.check_if_expired(key, record);
+        if expired {
+            // the store has dropped the expired record
+            self.decr_mem_usage(record.len() as u64);
+        }
+        expired
     }
 }
 
 impl Cache for RandomPolicy {
     fn get(&self, key: &KeyType) -> Result<Record> {
-        self.store.get(key)
+        let record = self.store.get_by_key(key)?;
+        if self.check_if_expired(key, &record) {
+            return Err(CacheError::NotFound);
+        }
+        Ok(record)
     }
 
     fn set(&self, key: KeyType, record: Record) -> Result<SetStatus> {
         let len = record.len() as u64;
-        self.incr_mem_usage(len);
-        self.store.set(key, record)
+        self.evict_while_over_limit();
+        let replaced = match self.store.get_by_key(&key) {
+            Ok(old) => old.len() as u64,
+            Err(_) => 0,
+        };
+        let result = self.store.set(key, record);
+        if result.is_ok() {
+            self.memory_usage.fetch_add(len, atomic::Ordering::Release);
+            self.decr_mem_usage(replaced);
+        }
+        result
     }
 
     fn delete(&self, key: KeyType, header: CacheMetaData) -> Result<Record> {
@@ -110,7 +123,11 @@ impl Cache for RandomPolicy {
     }
 
     fn flush(&self, header: CacheMetaData) {
-        self.store.flush(header)
+        let immediate = header.time_to_live == 0;
+        self.store.flush(header);
+        if immediate {
+            self.memory_usage.store(0, atomic::Ordering::Release);
+        }
     }
 
     fn as_read_only(&self) -> Box<dyn CacheReadOnlyView> {
@@ -118,7 +135,11 @@ impl Cache for RandomPolicy {
     }
 
     fn remove_if(&self, f: &mut CachePredicate) -> RemoveIfResult {
-        self.store.remove_if(f)
+        let result = self.store.remove_if(f);
+        result.iter().flatten().for_each(|key_value| {
+            self.decr_mem_usage(key_value.1.len() as u64);
+        });
+        result
     }
 
     fn len(&self) -> usize {
